@@ -46,9 +46,14 @@ class Block:
     def __init__(self, d):
         self.id = d["id"]
         self.elems = d["elems"]
-        self.succs = d["succs"]
-        self.reach = d.get("reach", [True] * len(self.succs))
+        self.reach = d.get("reach", [True] * len(d["succs"]))
+        # an edge the compiler folded away in THIS instantiation (`if constexpr`, a condition that is a constant expression)
+        # is not an edge: the positions stay (true branch first), the dead successor is None
+        self.succs = [s if (i >= len(self.reach) or self.reach[i]) else None for i, s in enumerate(d["succs"])]
         self.term = d.get("term")
+        if self.term and "cval" in self.term and len(self.succs) == 2:
+            dead = 1 if self.term["cval"] else 0
+            self.succs[dead] = None
         self.preds = []
         self.label = d.get("label")
         self.noreturn = d.get("noreturn", False)
